@@ -13,6 +13,7 @@ import (
 	"log"
 	"os"
 	"path/filepath"
+	"slices"
 	"sort"
 	"strings"
 	"sync"
@@ -443,6 +444,7 @@ func (r *vsRun) stepRecreate() {
 	rt := r.rt
 	var cands []string
 	var defs map[string]string
+	inflight, inflightRefs := "", []string(nil)
 	_ = r.e.inLoop(func() {
 		defs = map[string]string{}
 		for n, t := range r.e.mgr.tags {
@@ -451,17 +453,65 @@ func (r *vsRun) stepRecreate() {
 				cands = append(cands, n)
 			}
 		}
+		if t, ok := r.e.mgr.tags[r.e.mgr.taggingJobTag]; ok && r.e.mgr.taggingJobRunning {
+			inflight = r.e.mgr.taggingJobTag
+			inflightRefs = append(inflightRefs, t.referencedTags()...)
+			sort.Strings(inflightRefs)
+		}
 	})
 	sort.Strings(cands)
 	if len(cands) == 0 {
 		rt.Skip("no unreferenced tag")
 	}
 	name := rapid.SampledFrom(cands).Draw(rt, "recreate")
-	def := defs[name]
-	if r.apiCall(fmt.Sprintf("DelTag(%s)", name), func() error { return r.e.mgr.DelTag(name) }) != nil {
-		return
+	// the tag whose tagging job is in flight is the interesting one: the job must not take the new tag for its own
+	if inflight != "" && slices.Contains(cands, inflight) && rapid.IntRange(0, 2).Draw(rt, "recreateinflight") > 0 {
+		name = inflight
 	}
-	if r.apiCall(fmt.Sprintf("AddTag(%s,%q)", name, def), func() error { return r.e.mgr.AddTag(name, "#fff", def) }) != nil {
+	def := defs[name]
+	how := "delete"
+	if name == inflight {
+		how = rapid.SampledFrom([]string{"delete", "delete", "redefine", "rename"}).Draw(rt, "recreatehow")
+	}
+	away := ""
+	switch how {
+	case "delete":
+		if r.apiCall(fmt.Sprintf("DelTag(%s)", name), func() error { return r.e.mgr.DelTag(name) }) != nil {
+			return
+		}
+	case "redefine":
+		if r.apiCall(fmt.Sprintf("UpdateTag(%s,query=%q)", name, "id:0"), func() error { return r.e.mgr.UpdateTag(name, UpdateTagOperationUpdateQuery("id:0")) }) != nil {
+			return
+		}
+	case "rename":
+		typ, _, _ := strings.Cut(name, "/")
+		away = typ + "/away"
+		if r.apiCall(fmt.Sprintf("UpdateTag(%s,name=%s)", name, away), func() error { return r.e.mgr.UpdateTag(name, UpdateTagOperationUpdateName(away)) }) != nil {
+			return
+		}
+		if r.apiCall(fmt.Sprintf("DelTag(%s)", away), func() error { return r.e.mgr.DelTag(away) }) != nil {
+			r.fatalf("the renamed tag %s cannot be deleted again", away)
+		}
+	}
+	// what the tag refers to changes while the tag is away
+	if name == inflight {
+		for _, ref := range inflightRefs {
+			if !strings.HasPrefix(ref, "mark/") {
+				continue
+			}
+			ids := []uint64{uint64(rapid.IntRange(0, 6).Draw(rt, "id"))}
+			if rapid.Bool().Draw(rt, "markadd") {
+				_ = r.apiCall(fmt.Sprintf("UpdateTag(%s,markadd=%v)", ref, ids), func() error { return r.e.mgr.UpdateTag(ref, UpdateTagOperationMarkAddStream(ids)) })
+			} else {
+				_ = r.apiCall(fmt.Sprintf("UpdateTag(%s,markdel=%v)", ref, ids), func() error { return r.e.mgr.UpdateTag(ref, UpdateTagOperationMarkDelStream(ids)) })
+			}
+		}
+	}
+	if how == "redefine" {
+		if r.apiCall(fmt.Sprintf("UpdateTag(%s,query=%q)", name, def), func() error { return r.e.mgr.UpdateTag(name, UpdateTagOperationUpdateQuery(def)) }) != nil {
+			return
+		}
+	} else if r.apiCall(fmt.Sprintf("AddTag(%s,%q)", name, def), func() error { return r.e.mgr.AddTag(name, "#fff", def) }) != nil {
 		return
 	}
 	r.noteInvalidation()
